@@ -6,7 +6,7 @@
 // BOOL_OR / STRING_AGG over the non-NULL values (NULL if none), ARRAY_AGG the values in arrival order, an arithmetic wrapper
 // applied to the aggregate's value, HAVING on the group's own key and aggregates.
 // Grid: every sequence of up to 3 rows and a sample of those of 4 and 5 over a 7-row pool (NULL keys, NULL arguments, a group
-// whose argument is NULL on every row, TEXT arguments) x 12 statement shapes (HAVING over aggregates that are and are not in the select list, in either order).  Every statement has COUNT(*): the groups of
+// whose argument is NULL on every row, TEXT arguments) x 14 statement shapes (HAVING over aggregates that are and are not in the select list, in either order).  Every statement has COUNT(*): the groups of
 // the two known findings (no cell at all) do not occur here.
 // Also: STDDEV / VARIANCE / PERCENTILE through relations that hold for any definition (variance = deviation squared, zero
 // exactly for equal values, shift invariance, scaling, percentiles monotone in p, between MIN and MAX, 0.0 / 1.0 = MIN / MAX, the
@@ -62,6 +62,8 @@ fn expected(shape: usize, rows: &[Row]) -> Vec<J> {
         9 => groups(rows, |r| r.0).into_iter().filter(|(_, g)| g.len() > 1 && vs(g).into_iter().max().map(|m| m > 1).unwrap_or(false)).map(|(k, g)| json!({"k": jopt(k), "n": g.len()})).collect(),
         10 => groups(rows, |r| r.0).into_iter().filter(|(_, g)| vs(g).into_iter().max().map(|m| m > 1).unwrap_or(false) && g.len() > 1).map(|(k, g)| json!({"k": jopt(k), "n": g.len(), "lo": jopt(vs(&g).into_iter().min())})).collect(),
         11 => groups(rows, |r| r.0).into_iter().filter(|(_, g)| vs(g).len() >= 1 && vs(g).iter().sum::<i64>() < 3 && ss(g).len() <= 1).map(|(k, g)| json!({"k": jopt(k), "su": sum(&g)})).collect(),
+        12 => groups(rows, |r| r.0).into_iter().filter(|(_, g)| vs(g).into_iter().max().map(|m| m >= 2).unwrap_or(false)).map(|(k, g)| json!({"k": jopt(k), "n": g.len()})).collect(),
+        13 => groups(rows, |r| r.0).into_iter().filter(|(_, g)| vs(g).into_iter().min().map(|m| m < 2).unwrap_or(false) && ss(g).into_iter().max().map(|m| m >= "x").unwrap_or(false)).map(|(k, g)| json!({"k": jopt(k), "su": sum(&g)})).collect(),
         8 => { let passed: Vec<Row> = rows.iter().cloned().filter(|r| r.1.is_some()).collect();
                groups(&passed, |r| r.0).into_iter().map(|(k, g)| json!({"k": jopt(k), "n": g.len(), "vs": J::Array(g.iter().map(|r| jopt(r.1)).collect())})).collect() },
         _ => groups(rows, |r| r.1).into_iter().map(|(v, g)| json!({"v": jopt(v), "n": g.len(), "first": jopt(g.iter().filter_map(|r| r.0).min()), "keys": distinct_keys(&g)})).collect(),
@@ -69,7 +71,7 @@ fn expected(shape: usize, rows: &[Row]) -> Vec<J> {
 }
 fn distinct_keys(g: &[Row]) -> usize { let mut k: Vec<&str> = g.iter().filter_map(|r| r.0).collect(); k.sort(); k.dedup(); k.len() }
 
-const STATEMENTS: [&str; 12] = [
+const STATEMENTS: [&str; 14] = [
     "SELECT k, COUNT(*) AS n, COUNT(v) AS c, COUNT(DISTINCT v) AS d, SUM(v) AS su, MIN(v) AS lo, MAX(v) AS hi FROM t GROUP BY k",
     "SELECT k, COUNT(*) AS n, AVG(v) AS a, MIN(s) AS smin, MAX(s) AS smax, STRING_AGG(s, '+') AS joined FROM t GROUP BY k",
     "SELECT COUNT(*) AS n, SUM(v) AS su, MAX(v) + 1 AS top FROM t",
@@ -82,6 +84,8 @@ const STATEMENTS: [&str; 12] = [
     "SELECT k, COUNT(*) AS n FROM t GROUP BY k HAVING COUNT(*) > 1 AND MAX(v) > 1",
     "SELECT k, COUNT(*) AS n, MIN(v) AS lo FROM t GROUP BY k HAVING MAX(v) > 1 AND COUNT(*) > 1",
     "SELECT k, SUM(v) AS su FROM t GROUP BY k HAVING COUNT(v) >= 1 AND SUM(v) < 3 AND COUNT(s) <= 1",
+    "SELECT k, COUNT(*) AS n FROM t GROUP BY k HAVING PERCENTILE(v, 1.0) >= 2",
+    "SELECT k, SUM(v) AS su FROM t GROUP BY k HAVING PERCENTILE(v, 0.0) < 2 AND MAX(s) >= 'x'",
 ];
 
 #[test]
